@@ -597,6 +597,101 @@ def psk_guard():
             'Definition psk_skipped (is_ticket : bool) (psk_hash prf_name : string) : bool :=\n  %s.\n' % tr(hits[0].test)]
 
 
+def client_plan():
+    """TLSConnection._clientKeyExchange, abstractly interpreted over the suite: under which condition on the suite the
+    client (a) waits for a Certificate, (b) waits for a ServerKeyExchange, (c) calls
+    KeyExchange.verifyServerKeyExchange.  Conditions are membership tests on `cipherSuite`, and tests of locals
+    whose None-ness was decided by such tests (e.g. `if serverKeyExchange:`); anything else on the path to one of
+    these three actions is refused."""
+    path = os.path.join(REPO, 'tlslite', 'tlsconnection.py')
+    with open(path) as f:
+        tree = ast.parse(f.read())
+    cls = [n for n in tree.body if isinstance(n, ast.ClassDef) and n.name == 'TLSConnection']
+    fd = [n for n in (cls[0].body if cls else []) if isinstance(n, ast.FunctionDef) and n.name == '_clientKeyExchange']
+    if len(fd) != 1:
+        raise Refuse('TLSConnection._clientKeyExchange not found')
+    env = {}            # local name -> Gallina bool "is not None / truthy" (None = not a function of the suite)
+    found = {'certificate': [], 'server_key_exchange': [], 'verify': []}
+
+    def cond(e):
+        try:
+            return _membership(e, 'cipherSuite')[0]
+        except Refuse:
+            pass
+        if isinstance(e, ast.Name):
+            return env.get(e.id)
+        if isinstance(e, ast.UnaryOp) and isinstance(e.op, ast.Not):
+            c = cond(e.operand)
+            return None if c is None else '(negb %s)' % c
+        if isinstance(e, ast.BoolOp):
+            cs = [cond(v) for v in e.values]
+            if any(c is None for c in cs):
+                return None
+            return '(' + (' && ' if isinstance(e.op, ast.And) else ' || ').join(cs) + ')'
+        return None
+
+    def conj(pc, c):
+        if pc is None or c is None:
+            return None
+        return c if pc == 'true' else '(%s && %s)' % (pc, c)
+
+    def scan_calls(node, pc):
+        for n in ast.walk(node):
+            if isinstance(n, ast.Call):
+                fn = ast.unparse(n.func)
+                if fn == 'self._getMsg' and len(n.args) >= 2:
+                    what = ast.unparse(n.args[1])
+                    for k in ('certificate', 'server_key_exchange'):
+                        if what == 'HandshakeType.' + k:
+                            found[k].append(pc)
+                elif fn.endswith('verifyServerKeyExchange'):
+                    found['verify'].append(pc)
+
+    def walk(stmts, pc):
+        for st in stmts:
+            if isinstance(st, ast.If):
+                c = cond(st.test)
+                scan_calls(st.test, pc)
+                walk(st.body, conj(pc, c))
+                walk(st.orelse, conj(pc, None if c is None else '(negb %s)' % c))
+            elif isinstance(st, (ast.For, ast.While)):
+                scan_calls(st.iter if isinstance(st, ast.For) else st.test, pc)
+                walk(st.body, pc)
+                walk(st.orelse, pc)
+            elif isinstance(st, ast.Try):
+                walk(st.body, pc)
+                for h in st.handlers:
+                    walk(h.body, pc)
+                walk(st.orelse, pc)
+                walk(st.finalbody, pc)
+            elif isinstance(st, ast.With):
+                walk(st.body, pc)
+            else:
+                scan_calls(st, pc)
+                if isinstance(st, ast.Assign) and len(st.targets) == 1 and isinstance(st.targets[0], ast.Name):
+                    name = st.targets[0].id
+                    isnone = isinstance(st.value, ast.Constant) and st.value.value is None
+                    if pc is None:
+                        env[name] = None
+                    elif pc == 'true':
+                        env[name] = 'false' if isnone else 'true'
+                    else:
+                        old = env.get(name, 'false')
+                        env[name] = None if old is None else '(if %s then %s else %s)' % (pc, 'false' if isnone else 'true', old)
+    walk(fd[0].body, 'true')
+    out = ['(* tlslite/tlsconnection.py:%d _clientKeyExchange, interpreted over the suite: when the client waits for a' % fd[0].lineno,
+           '   Certificate, for a ServerKeyExchange, and when it verifies the ServerKeyExchange signature *)']
+    for key, gname in (('certificate', 'gen_cli_gets_certificate'), ('server_key_exchange', 'gen_cli_gets_ske'),
+                       ('verify', 'gen_cli_verifies_ske_signature')):
+        pcs = found[key]
+        if not pcs:
+            raise Refuse('_clientKeyExchange: no %s site found' % key)
+        if any(p is None for p in pcs):
+            raise Refuse('_clientKeyExchange: the %s site is guarded by a condition that is not a function of the suite' % key)
+        out.append('Definition %s (s : Z) : bool :=\n  %s.\n' % (gname, ' || '.join(pcs) if len(pcs) > 1 else pcs[0]))
+    return out
+
+
 def suite_sources():
     """which expression supplies the cipher suite to every key-derivation / Finished call of TLSConnection, and how
     _clientResume treats a ServerHello whose suite differs from the resumed session's"""
@@ -728,6 +823,7 @@ class SuitesUnit(object):
         o += dispatch_chains(d['lists'])
         o += psk_guard()
         o += suite_sources()
+        o += client_plan()
         return '\n'.join(o)
 
 
